@@ -35,6 +35,12 @@ var InstrTargets = []instr.Target{
 	{File: "pkg/flowcontrols/limiter.go", All: true, Funcs: []string{"upstreamLimiter.Load", "upstreamLimiter.syncLocalFlowControls"}},
 	{File: "pkg/clusters/clusterinfo.go", Funcs: []string{"endpointPickStrategy.Pop"}},
 	{File: "pkg/ratelimiter/limiter/ratelimter.go", Funcs: []string{"rateLimiter.UpdateRateLimitConditionStatus", "rateLimiter.UpstreamConditionHandler", "rateLimiter.calculateUpstreamCondition", "rateLimiter.deleteCondition"}},
+	// map iteration order reaches behaviour (order of API calls): any order is
+	// legal for a map; the simulator fixes the canonical one.
+	{File: "pkg/ratelimiter/store/local/local.go", NoYield: true, Patches: []instr.Patch{
+		{Name: "sorted-list", Count: 2, Old: "\treturn results\n}", New: "\tsort.Slice(results, func(i, j int) bool { return results[i].Name < results[j].Name })\n\treturn results\n}"},
+		{Name: "import-sort", Count: 1, Old: "import (\n", New: "import (\n\t\"sort\"\n"},
+	}},
 	{File: "pkg/ratelimiter/store/k8s/cache_store.go", All: true, Funcs: []string{"objectStore.Save", "objectStore.Delete", "objectStore.DeleteUpstream", "objectStore.Load", "objectStore.Stop", "objectStore.createOrUpdate", "objectStore.doSyncLocked"}},
 }
 
@@ -96,5 +102,39 @@ func init() {
 			"a clean batch is evidence, not proof",
 		},
 		NeedInst: []string{"pkg/clusters/clusterinfo.go"},
+	})
+	reg(&Check{
+		ID:    "C06",
+		Title: "Local token bucket: admissions <= burst + qps*T, never stricter than set",
+		Batches: []Batch{
+			{World: "tb", Profile: "c06-steady", Quick: 600, Thor: 40000, PerProc: 50, FaultFree: true},
+			{World: "tb", Profile: "c06-reconf", Quick: 400, Thor: 20000, PerProc: 50},
+		},
+		Rule: "each run = drawn (qps, burst>=qps) and a drawn arrival process of 20-400 calls on the fake clock (same-instant bursts, exact k/qps gaps +-1ns, micro/milli/second pauses up to 2 minutes; reconf profile: resizes ending a stretch); every pair of admissions of a stretch is checked against burst+qps*T, every idle period against min(burst, floor(qps*t)); distinct = distinct trace hash; non-trivial = some calls admitted and some refused",
+		Real: []string{"pkg/flowcontrols UpstreamLimiter + remote.FlowControlCache/localWrapper/meterWrapper + flowcontrol.resizeableTokenBucket + client-go token bucket (golang.org/x/time/rate) reading the bubble clock"},
+		Stub: []string{"arrival process (driver), fake clock (testing/synctest)"},
+		Assume: []string{
+			"epsilon of 1e-6 token for float rounding of the underlying limiter",
+			"callers arrive at the same fake instant rather than on parallel OS threads (the limiter serialises them under its own mutex)",
+			"the 429 mapping is checked through HTTP in the gw world (C04/C05 profiles)",
+			"a clean batch is evidence, not proof",
+		},
+	})
+	reg(&Check{
+		ID:    "C19",
+		Title: "API-backed limiter store: acknowledged state survives crashes, per shard",
+		Batches: []Batch{
+			{World: "store", Profile: "c19-nofault", Quick: 150, Thor: 6000, PerProc: 1, FaultFree: true},
+			{World: "store", Profile: "c19-faults", Quick: 350, Thor: 20000, PerProc: 1},
+		},
+		Rule: "each run = drawn shard layout, store mode (write-through / periodic with drawn period), 1-3 caller threads with drawn Save/Delete/DeleteUpstream/Flush programs over conditions of both shards, injected API outcomes at the pre/post sim point of every API call, and either a crash at a drawn step or a graceful Stop; afterwards successors of both shards Load() fault-free; distinct = distinct trace hash; non-trivial = some operation acknowledged AND (an operation failed, was in flight at the crash, or a graceful stop completed)",
+		Real: []string{"pkg/ratelimiter/store/k8s objectStore (Save/Delete/DeleteUpstream/Load/Flush/Stop/createOrUpdate/periodic sync; optionally yield-instrumented), pkg/ratelimiter/store/local, client-go retry/back-off on the fake clock"},
+		Stub: []string{"control-plane API for RateLimitConditions (simapi: in-memory objects with resource versions, REST-strategy status/spec separation, two sim points per call)", "caller threads"},
+		Assume: []string{
+			"durable state = objects in the simulated API; a crash abandons the holder with all goroutines parked for ever",
+			"a panic inside the store's own goroutines is executed as a crash of the holder (as in production, ReallyCrash=true), then the durability oracle runs on the survivors",
+			"specs are compared (a main-resource update does not persist status, as the REST strategy prescribes)",
+			"a clean batch is evidence, not proof",
+		},
 	})
 }
